@@ -519,16 +519,32 @@ def shared_instance_escape(ctx, py, rule="PY-SHARED-ESCAPE", mod="metadata", cls
     for qn, fn in m.funcs.items():
         if not qn.startswith(cls + ".") or qn.endswith(".__init__"):
             continue
+        local = {}
+        for a_ in ast.walk(fn):
+            if isinstance(a_, ast.Assign) and len(a_.targets) == 1 and isinstance(a_.targets[0], ast.Name):
+                local.setdefault(a_.targets[0].id, []).append(a_.value)
+
+        def resolve(e):
+            # a local with a single definition stands for that definition
+            while isinstance(e, ast.Name) and len(local.get(e.id, [])) == 1:
+                e = local[e.id][0]
+            return e
         for r in ast.walk(fn):
             if not isinstance(r, ast.Return) or r.value is None:
                 continue
-            v = r.value
+            v = resolve(r.value)
+            if isinstance(v, ast.Call) and ast.unparse(v.func) == "copy.deepcopy" and v.args:
+                inner = resolve(v.args[0])
+                if isinstance(inner, ast.Attribute) and inner.attr in dict_attrs:
+                    n += 1
+                    ctx.ob(rule, "%s|returns-%s" % (qn, inner.attr), True, m.loc(r), "returns a deep copy of self.%s" % inner.attr)
+                continue
             shallow = None
             while True:
                 if isinstance(v, ast.Call) and ast.unparse(v.func) in ("copy.copy", "dict", "collections.OrderedDict", "OrderedDict") and v.args:
-                    shallow = ast.unparse(v.func); v = v.args[0]
+                    shallow = ast.unparse(v.func); v = resolve(v.args[0])
                 elif isinstance(v, ast.Call) and isinstance(v.func, ast.Attribute) and v.func.attr == "copy" and not v.args:
-                    shallow = ".copy()"; v = v.func.value
+                    shallow = ".copy()"; v = resolve(v.func.value)
                 else:
                     break
             if isinstance(v, ast.Attribute) and isinstance(v.value, ast.Name) and v.value.id == "self" and v.attr in dict_attrs:
@@ -537,9 +553,5 @@ def shared_instance_escape(ctx, py, rule="PY-SHARED-ESCAPE", mod="metadata", cls
                        "returns %s: a caller that edits %s rewrites the shared instance" % (
                            "self.%s itself" % v.attr if not shallow else "a shallow copy (%s) of self.%s" % (shallow, v.attr),
                            "it" if not shallow else "a nested entry (properties, required …)"))
-            elif isinstance(r.value, ast.Call) and ast.unparse(r.value.func) == "copy.deepcopy" and r.value.args \
-                    and isinstance(r.value.args[0], ast.Attribute) and r.value.args[0].attr in dict_attrs:
-                n += 1
-                ctx.ob(rule, "%s|returns-%s" % (qn, r.value.args[0].attr), True, m.loc(r), "returns a deep copy of self.%s" % r.value.args[0].attr)
     ctx.ob(rule, "instances", n >= 1, m.rel, "%d accessor returns of the schema dict analysed" % n)
     return n
